@@ -34,6 +34,7 @@ def oracle(case, ctx, label=True):
         for k, v in cls.items():
             ctx.label(k, int(v))
     ctx.ev()
+    args_before = [list(x) if isinstance(x, list) else None for x in (lon, ron)]
     try:
         res = lt.inner_join(rt, lon, ron, expect="many_to_many")
     except S.SerifTypeError as e:
@@ -60,6 +61,9 @@ def oracle(case, ctx, label=True):
             return ctx.fail("inner/column-names", f"got {res.column_names()} want {names}")
     if R.snapshot_table(lt) != snap_l or R.snapshot_table(rt) != snap_r:
         return ctx.fail("inner/input-modified", "an input table changed during inner_join")
+    for side_, arg, was in (("left_on", lon, args_before[0]), ("right_on", ron, args_before[1])):
+        if was is not None and (len(arg) != len(was) or any(x is not y for x, y in zip(arg, was))):
+            return ctx.fail("inner/key-list-argument-modified", f"the {side_} list the caller passed was rewritten by the join: {was} -> {arg}")
     # the same join again after an in-place edit of one right key cell (a cached index would be stale now)
     if case["nr"] >= 1 and case["nl"] >= 1:
         spec = case["R"]["specs"][0]
